@@ -26,7 +26,7 @@ func init() {
 		Level: "fault_enumeration",
 		Rule: "exhaustive environment enumeration: inputs = every sequence of <=2 fragments over F (all chunkings) and every sequence of 3 over a 30-fragment core (reduced chunkings) x 8 policies; for each input of n bytes every subset of split points when n<=8 (2^(n-1) chunkings), otherwise every chunking with <=2 split points (<=1 beyond 24 bytes), plus one byte at a time; " +
 			"each chunking also with a zero-length read before every chunk and with the last chunk delivered together with io.EOF; x destination {bytes.Buffer (has WriteString), plain io.Writer}; plus a 10 000-byte input with every single split point in a 64-byte window around each 4096-byte tokenizer refill. " +
-			"Oracle: Sanitize, SanitizeBytes, SanitizeReader and SanitizeReaderToWriter give identical bytes for every non-blank input under every environment; blank input is returned identical by Sanitize and SanitizeBytes; the caller's []byte is unchanged; the two cmd binaries (built from /repo) print exactly the harness's reconstruction of their documented policy applied with Sanitize. " +
+			"Oracle: Sanitize, SanitizeBytes, SanitizeReader and SanitizeReaderToWriter give identical bytes for every non-blank input under every environment; blank input is returned identical by Sanitize and SanitizeBytes; the caller's []byte is unchanged; results already returned (the slice of SanitizeBytes, the buffer of SanitizeReader) still read the same after the policy sanitised a different document through every entry point; the two cmd binaries (built from /repo) print exactly the harness's reconstruction of their documented policy applied with Sanitize, on every short stdin document and on 64 KiB, 1 MiB + 1 and 3 MiB of stdin. " +
 			"non-trivial = distinct (policy, input, environment) runs whose input contains markup and was split at least once.",
 		Assumptions: []string{"the cmd binaries are built by bin/check from /repo's working tree into the per-run work directory"},
 		QuickBudget: 50, ThoroughBudget: 800,
@@ -37,7 +37,7 @@ func init() {
 		ID:    "C16",
 		Level: "fault_enumeration",
 		Rule: "exhaustive fault enumeration: inputs = every sequence of <=3 (quick: 3 over a 30-fragment core) fragments over F x policies {comments on/off, space insertion on/off, AllowUnsafe script/style text, element patterns, UGC}; the fault-free write sequence w_1..w_m is recorded, then for every k<=m and each fault kind (only w_k fails; w_k and all later fail; w_k accepts half and fails) and both writer kinds the run is repeated (the injected error rotates through five values: generic, io.EOF, io.ErrShortWrite, io.ErrClosedPipe, a timeout; all five at the first write); " +
-			"and for every byte offset j<=n the reader delivers data[:j] and then a non-EOF error (six kinds: generic, io.ErrUnexpectedEOF, io.ErrClosedPipe, io.ErrNoProgress, a timeout error, a wrapped error). Oracle: the returned error is non-nil, the writer sees no call after the failing one, the accepted bytes are a prefix of the fault-free output, SanitizeReader returns an empty buffer on reader failure. " +
+			"and for every byte offset j<=n the reader delivers data[:j] and then a non-EOF error (six kinds: generic, io.ErrUnexpectedEOF, io.ErrClosedPipe, io.ErrNoProgress, a timeout error, a wrapped error), into a bytes.Buffer and into a *bufio.Writer (a destination with Flush() error); every buffer SanitizeReader hands back is written into, as a caller may. Oracle: the returned error is non-nil, the writer sees no call after the failing one, the accepted bytes are a prefix of the fault-free output, SanitizeReader returns an empty buffer on reader failure. " +
 			"non-trivial = distinct (policy, input, fault) runs in which the fault was actually reached.",
 		Assumptions: []string{"faults are injected at the io.Reader / io.Writer seam of the exported API only"},
 		QuickBudget: 50, ThoroughBudget: 800,
